@@ -555,3 +555,8 @@ Theorem compact_valid_utf8 : forall p q, Json.compact p = Some q -> Json.valid_u
 Proof.
   intros p q H Hv. rewrite <- (squeeze_is_compact p q H). exact (squeeze_valid_len (length p) p SqOut (le_n _) Hv).
 Qed.
+
+Example compact_valid_utf8_nonvacuous :
+  Json.compact [32; 34; 195; 169; 60; 34] = Some [34; 195; 169; 92; 117; 48; 48; 51; 99; 34] /\
+  Json.valid_utf8 [32; 34; 195; 169; 60; 34] = true /\ Json.valid_utf8 [34; 195; 169; 92; 117; 48; 48; 51; 99; 34] = true.
+Proof. repeat split; vm_compute; reflexivity. Qed.
